@@ -68,6 +68,8 @@ FIXED_TEXTS = [
     "a = word\nb = foo*/\n",
     "a = /*never_closed",
     "a = b#c\n",
+    # line ends that are bare carriage returns
+    "a = 1\rb = 2\rEND\r", "a =\rb = 2\r", "a = \"p-\r  q\"\rb =\r",
     # text that ends (or fails) deep inside nested sequences, sets and blocks, and a
     # deep well-formed one: whatever a parser counts on the way down has to be back
     # at zero however the parse ends
